@@ -1849,6 +1849,13 @@ def rule_directory_creation_tolerates_races(ctx, rep: Report, rid="R9", min_site
                         names = [] if h.type is None else ([unparse(e) for e in h.type.elts] if isinstance(h.type, ast.Tuple) else [unparse(h.type)])
                         if h.type is None or any(nm.split(".")[-1] in ("OSError", "FileExistsError", "EnvironmentError", "IOError", "Exception") for nm in names):
                             handled = True
+                if isinstance(p_, ast.With) and child in p_.body:
+                    # `with contextlib.suppress(OSError):` is the try / except OSError: pass of the same statement
+                    for it_ in p_.items:
+                        ce = it_.context_expr
+                        if isinstance(ce, ast.Call) and (dotted(ce.func) or "").split(".")[-1] == "suppress" and any(
+                                unparse(a).split(".")[-1] in ("OSError", "FileExistsError", "EnvironmentError", "IOError", "Exception") for a in ce.args):
+                            handled = True
                 child, p_ = p_, parent(p_)
             fn = enclosing(c, ast.FunctionDef)
             ordinal[fn.name if fn else "<module>"] = ordinal.get(fn.name if fn else "<module>", 0) + 1
